@@ -25,6 +25,7 @@ type memoryStore struct {
 	senderMsgSeqNum, targetMsgSeqNum int
 	creationTime                     time.Time
 	messageMap                       map[int][]byte
+	maxSavedSeqNum                   int
 }
 
 func (store *memoryStore) NextSenderMsgSeqNum() int {
@@ -67,6 +68,7 @@ func (store *memoryStore) Reset() error {
 	store.targetMsgSeqNum = 0
 	store.creationTime = time.Now()
 	store.messageMap = nil
+	store.maxSavedSeqNum = 0
 	return nil
 }
 
@@ -86,6 +88,9 @@ func (store *memoryStore) SaveMessage(seqNum int, msg []byte) error {
 	}
 
 	store.messageMap[seqNum] = msg
+	if seqNum > store.maxSavedSeqNum {
+		store.maxSavedSeqNum = seqNum
+	}
 	return nil
 }
 
@@ -98,9 +103,13 @@ func (store *memoryStore) SaveMessageAndIncrNextSenderMsgSeqNum(seqNum int, msg 
 }
 
 func (store *memoryStore) IterateMessages(beginSeqNum, endSeqNum int, cb func([]byte) error) error {
-	// Sequence numbers start at 1; do not walk a (possibly astronomically large) range below it.
+	// Walk only numbers that can be stored: the requested range may be astronomically large
+	// (sequence numbers start at 1; nothing above the highest saved number exists).
 	if beginSeqNum < 1 {
 		beginSeqNum = 1
+	}
+	if endSeqNum > store.maxSavedSeqNum {
+		endSeqNum = store.maxSavedSeqNum
 	}
 	for seqNum := beginSeqNum; seqNum <= endSeqNum; seqNum++ {
 		if m, ok := store.messageMap[seqNum]; ok {
